@@ -31,20 +31,25 @@ SHARD = 250
 
 WINDOW, COUNT, STATE, BOTH, COUNT_STATE = 0, 1, 2, 3, 4
 KIND_NAMES = ['window', 'countByWindow', 'updateStateByKey', 'window+updateStateByKey', 'countByWindow+updateStateByKey']
-U_NAMES = ['sum', 'last', 'count', 'append']
+U_NAMES = ['sum', 'last', 'count', 'append', 'history', 'idle', 'decay']
 U = [
     lambda vs, s: (s if s is not None else 0) + sum(vs),
     lambda vs, s: s if not vs else vs[-1],
     lambda vs, s: (s or 0) + len(vs),
     lambda vs, s: (s or []) + vs,
+    # u([], s) != s: these show whether the function is called with [] for a key that is absent in an interval
+    lambda vs, s: (s or []) + [list(vs)],          # one entry per interval since the key appeared
+    lambda vs, s: 0 if vs else (s or 0) + 1,       # intervals since the key last had data
+    lambda vs, s: sum(vs) + (s or 0) // 2,         # a sum that halves every interval
 ]
+NU = len(U)
 
 RULE = ('cases (kind, w, s, update function, consumers k, queue contents, tick times): the doctest histories; exhaustive '
         'w 1..4 x s 1..3 x k 1..3 over a 6-tick history of singleton batches for window and countByWindow, and update '
         'function x k for a 6-tick keyed history; thorough tier: every empty/singleton batch pattern and queue length over 6 ticks '
         'for every (w, s), every presence pattern of two keys over 5 intervals for every update function; random histories of up to 8 ticks (queue shorter, equal or longer than the '
         'number of ticks; batches of 0-3 elements; keys 0..3 that disappear for several intervals), w 1..4, s 1..3, '
-        'update functions sum/last/count/append, 1-3 consumers, strictly increasing tick times with gaps 1..3 and (5%) one '
+        'update functions sum/last/count/append/history/idle/decay (the last three change the state of an absent key), 1-3 consumers, strictly increasing tick times with gaps 1..3 and (5%) one '
         'repeated time; non-trivial = at least two ticks and a non-empty batch; distinct by canonical JSON of the case')
 ASSUMPTIONS = [
     'tick times are integral floats (the guards only compare them; modelled as Z)',
@@ -244,7 +249,10 @@ def _keyed_batches(rng, n):
     for _ in range(n):
         if rng.random() < 0.25:
             live = rng.sample(range(4), rng.randint(1, 3))   # some keys disappear for a while
-        out.append([(rng.choice(live), rng.randint(-5, 9)) for _ in range(rng.choice([0, 1, 2, 2, 3]))])
+        if out and rng.random() < 0.25:
+            out.append([])                                   # a wholly empty interval after keys have appeared
+        else:
+            out.append([(rng.choice(live), rng.randint(-5, 9)) for _ in range(rng.choice([0, 1, 2, 2, 3]))])
     return out
 
 
@@ -252,7 +260,7 @@ def _random_case(rng):
     knd = rng.choice([WINDOW, WINDOW, WINDOW, COUNT, COUNT, COUNT, STATE, STATE, STATE, STATE, BOTH, BOTH, COUNT_STATE])
     nt = rng.randint(1, 8)
     nb = max(0, nt + rng.choice([-3, -2, -1, 0, 0, 0, 1]))
-    w, s, uc, k = rng.randint(1, 4), rng.randint(1, 3), rng.randrange(4), rng.randint(1, 3)
+    w, s, uc, k = rng.randint(1, 4), rng.randint(1, 3), rng.randrange(NU), rng.randint(1, 3)
     batches = _keyed_batches(rng, nb) if knd in (STATE, BOTH, COUNT_STATE) else _plain_batches(rng, nb)
     return (knd, w, s, uc, k, batches, _times(rng, nt))
 
@@ -293,10 +301,15 @@ def generate(rng, tier):
             for k in range(1, 4):
                 cases.append((WINDOW, w, s, 0, k, six, [1, 2, 3, 4, 5, 6]))
                 cases.append((COUNT, w, s, 0, k, six, [1, 2, 3, 4, 5, 6]))
-                cases.append((BOTH, w, s, (w + s + k) % 4, k, keyed6, [1, 2, 3, 4, 5, 6]))
-    for uc in range(4):
+                cases.append((BOTH, w, s, (w + 2 * s + 3 * k) % NU, k, keyed6, [1, 2, 3, 4, 5, 6]))
+    # a key that is absent for several intervals after it appeared, wholly empty intervals, a queue that runs dry
+    gaps = [[(0, 3), (1, 4)], [], [], [(1, 5)], [], [], [(0, -2), (0, 6)]]
+    for uc in range(NU):
         for k in range(1, 4):
             cases.append((STATE, 1, 1, uc, k, keyed6, [1, 2, 3, 4, 5, 6]))
+        cases.append((STATE, 1, 1, uc, 2, gaps, [1, 2, 3, 4, 5, 6, 7, 8, 9]))
+        cases.append((STATE, 1, 1, uc, 1, [[(7, 1)]], [1, 2, 3, 4]))
+        cases.append((COUNT_STATE, 2, 2, uc, 1, gaps, [1, 2, 3, 4, 5, 6, 7, 8]))
     # queue exhausted before / after the ticks end, empty batches
     for knd in (WINDOW, COUNT):
         for w, s in ((2, 1), (3, 2), (4, 3), (1, 2)):
@@ -317,7 +330,7 @@ def generate(rng, tier):
                     cases.append((WINDOW, w, s, 0, k, full[:nb], [1, 2, 3, 4, 5, 6]))
                     cases.append((COUNT, w, s, 0, k, full[:nb], [1, 2, 3, 4, 5, 6]))
         # exhaustive: presence patterns of two keys over 5 intervals, every update function
-        for uc in range(4):
+        for uc in range(NU):
             for m0 in range(32):
                 for m1 in range(32):
                     b = [([(0, i + 1)] if m0 >> i & 1 else []) + ([(1, 10 + i), (1, -i)] if m1 >> i & 1 else [])
